@@ -5,6 +5,9 @@ import vlib
 
 def run(chk):
     q = chk.quick
+    # (B1) System end to end on the exact field model, random-oracle challenges (MC_Protocol: Completeness, RoleSync, FSBinding,
+    # RejectsInvalid, MegaIdentity), with non-vacuity probes
+    vlib.protocol_mc(chk)
     depth = 3 if q else 4
     behs = vlib.generate_behaviours(chk, depth, rich=True, name="rich")
     bad = [b for b in behs if b["expect_v"] == "reject"]
